@@ -70,6 +70,10 @@ ASSUMPTIONS = [
 TAU1 = 1e-6
 FLOOR1 = 1e-4          # tol1 = TAU1 * (|P_fd|_F + FLOOR1 * M)  -> absolute floor 1e-10 M (fd of an energy with absolute rounding eps*M: eps*M/h ~ 3e-13 M)
 TAU2 = 1e-4
+TAU2N = 1e-6           # second derivative at the nearly-repeated probes (stencil evaluated as single compiled calls)
+REPEATED_GAP = 1e-12   # centre gap <= this: class of the open finding TANGENT_KEY (library error ~ 1e-16 / gap, measured)
+NEAR_PROBE_GAP = 1e-4  # a centre gap in (REPEATED_GAP, NEAR_PROBE_GAP] is 'nearly repeated' (non-trivial, own calibration row)
+D11_GAP = 1e-6 * (1.0 + 1e-6)   # D11 class 'relative gap <= 1e-6'; the slack keeps the probes built AT 1e-6 on one side
 TOLERANCES = {
     "first derivative, per component": "|P_ad - P_fd| <= 1e-6 (|P_fd|_F + 1e-4 M), M = sum of the moduli (floor: fd of an "
                                        "energy with absolute rounding eps M has error ~ eps M / h = 3e-13 M). Worst observed "
@@ -245,7 +249,7 @@ class _Programs:
 # comparison of one (state, deformation): autodiff vs finite differences
 # ----------------------------------------------------------------------------------------------------
 
-def _compare(ad, fd, M):
+def _compare(ad, fd, M, tau2=TAU2):
     """ad = (W, P(3,3), dW(9), T(9,3,3)); fd = Stencil.derivatives(...).  Returns dict with per-entry verdicts."""
     from mc.ref import material_ref as R
     W, P, dW, T = ad
@@ -253,7 +257,7 @@ def _compare(ad, fd, M):
     g, g0, Hs, Hs0 = fd["grad"], fd["grad_plain"], fd["hess"], fd["hess_plain"]
     with onp.errstate(all="ignore"):
         tol1 = TAU1 * (R.fro(g) + FLOOR1 * M)
-        tol2 = TAU2 * max(M, onp.abs(Hs).max())
+        tol2 = tau2 * max(M, onp.abs(Hs).max())
         e1 = onp.abs(P - g).ravel()
         e2 = onp.maximum(onp.abs(T9 - Hs), onp.abs(T9.T - Hs))
         rel1 = onp.abs(g - g0).max()
@@ -292,9 +296,11 @@ def _violation(rec, key, cid, det):
 class _Case:
     """One (constants set, state, deformation)."""
     __slots__ = ("prefix", "H", "s", "state_label", "H_label", "excl1", "excl2", "gap_centre", "gap_stencil", "klass",
-                 "nontrivial", "h")
+                 "nontrivial", "h", "near_probe", "turned")
 
     def __init__(self, **kw):
+        self.near_probe = False     # probe built with a prescribed small gap: single-call stencil, tolerance TAU2N
+        self.turned = None          # near probes: internal state turned against the probe inside the pair plane (measured)
         for k, v in kw.items():
             setattr(self, k, v)
 
@@ -319,27 +325,34 @@ def _run_cases(rec, mdl, prog, name, cases, s_pad, dt, p, M, eigen_based, seed):
         if not any_wanted:
             continue
         pts = st.points(c.H, c.h)
+        tau2 = TAU2N if c.near_probe else TAU2
         try:
             ad1 = prog.ad_single(c.H, c.s, dt, p)
-            fdB = st.derivatives(prog.stencil_batched(pts, c.s, dt, p), c.h)
+            if c.near_probe:
+                # the compiled batch evaluates the energy at nearly repeated principal values with errors up to 3e-11 M (D11),
+                # which is 1e-5 M in a second difference: these probes use the stencil evaluated as single compiled calls
+                fdB = st.derivatives(prog.stencil_single(pts, c.s, dt, p), c.h)
+                rec.branch("protocol:near-probe stencil evaluated as single calls")
+            else:
+                fdB = st.derivatives(prog.stencil_batched(pts, c.s, dt, p), c.h)
         except Exception as e:  # noqa
             _violation(rec, "%s|single|%s" % (name, _libkey(e)), c.prefix + ";single", {"error": repr(e)[:600]})
             continue
-        res = {"single": _compare(ad1, fdB, M)}
+        res = {"single": _compare(ad1, fdB, M, tau2)}
         ads = {"single": ad1}
         if adB is not None:
             ads["batched"] = tuple(x[i] for x in adB)
-            res["batched"] = _compare(ads["batched"], fdB, M)
+            res["batched"] = _compare(ads["batched"], fdB, M, tau2)
         fd1 = None
         alt = None
-        need1 = any((not r["ok1"].all() and not c.excl1) or (not r["ok2"].all() and not c.excl2) or
-                    not (r["fd_reliable1"] and r["fd_reliable2"]) for r in res.values())
+        need1 = (not c.near_probe) and any((not r["ok1"].all() and not c.excl1) or (not r["ok2"].all() and not c.excl2) or
+                                           not (r["fd_reliable1"] and r["fd_reliable2"]) for r in res.values())
         fd_used = {"single": fdB, "batched": fdB}
         if need1:
             # re-judge the single-call mode with the stencil evaluated as single compiled calls
             try:
                 fd1 = st.derivatives(prog.stencil_single(pts, c.s, dt, p), c.h)
-                rs = _compare(ad1, fd1, M)
+                rs = _compare(ad1, fd1, M, tau2)
                 rec.branch("protocol:stencil re-evaluated as single calls")
                 stencil_batch_bad = (res["single"]["ok1"].all() != rs["ok1"].all()) or (res["single"]["ok2"].all() != rs["ok2"].all()) \
                     or (res["single"]["fd_reliable2"] != rs["fd_reliable2"]) or (res["single"]["fd_reliable1"] != rs["fd_reliable1"])
@@ -348,12 +361,15 @@ def _run_cases(rec, mdl, prog, name, cases, s_pad, dt, p, M, eigen_based, seed):
                 res["single"] = rs
                 fd_used["single"] = fd1
                 if "batched" in res:
-                    alt = _compare(ads["batched"], fd1, M)          # batched autodiff against the single-call stencil
+                    alt = _compare(ads["batched"], fd1, M, tau2)    # batched autodiff against the single-call stencil
             except Exception as e:  # noqa
                 _violation(rec, "%s|single|%s" % (name, _libkey(e)), c.prefix + ";single", {"error": repr(e)[:600]})
                 continue
-        near = eigen_based and (min(c.gap_centre, c.gap_stencil) <= 1e-6)
-        near_centre = eigen_based and c.gap_centre <= 1e-6
+        near = eigen_based and (min(c.gap_centre, c.gap_stencil) <= D11_GAP)       # D11's input class
+        near_centre = eigen_based and c.gap_centre <= D11_GAP                      # input class of the (fixed) POW_KEY
+        repeated_centre = eigen_based and c.gap_centre <= REPEATED_GAP             # input class of the open TANGENT_KEY
+        nearly_centre = eigen_based and REPEATED_GAP < c.gap_centre <= NEAR_PROBE_GAP
+        cal = ("nearly-repeated probe" if c.near_probe else ("repeated" if near else "distinct"))
         uses_pow = "seth hill" in name
         rS = res["single"]
         for mode in ("single", "batched"):
@@ -378,6 +394,8 @@ def _run_cases(rec, mdl, prog, name, cases, s_pad, dt, p, M, eigen_based, seed):
                     oname = "first" if order == 1 else "second"
                     if excl:
                         rec.branch("excluded:%s:%s" % (oname, excl))
+                        if c.near_probe:
+                            rec.branch("near-probe:excluded:%s:%s" % (oname, excl))
                         continue
                     reliable = (rS if mode == "single" else r)["fd_reliable%d" % order] and rS["fd_reliable%d" % order]
                     if mode == "batched" and alt is not None and not (ok and reliable) and rS["fd_reliable%d" % order]:
@@ -388,19 +406,22 @@ def _run_cases(rec, mdl, prog, name, cases, s_pad, dt, p, M, eigen_based, seed):
                             err, tol = (alt["e1"][k], alt["tol1"]) if order == 1 else (alt["e2"][a, b], alt["tol2"])
                             reliable = True
                     if ok and reliable:
-                        rec.track_max("%s derivative|%s|%s|error/tolerance" % (oname, mode, "repeated" if near else "distinct"),
-                                      err / tol)
+                        rec.track_max("%s derivative|%s|%s|error/tolerance" % (oname, mode, cal), err / tol)
                         rec.case(cid, nontrivial=c.nontrivial, outcome="ok:%s:%s" % (oname, c.klass), steps=1,
                                  sample=({"case": cid, "H": c.H, "state": c.s, "autodiff_minus_fd": err, "tolerance": tol}
                                          if mode == "single" and stable_hash("%d|%s" % (seed, cid)) % 9973 == 0 else None))
                         continue
                     if ok and not reliable:
                         rec.branch("excluded:%s:fd-unreliable (Richardson vs plain > 0.1 tol)" % oname)
+                        if c.near_probe:
+                            rec.branch("near-probe:excluded:%s:fd-unreliable (Richardson vs plain > 0.1 tol)" % oname)
                         continue
                     # ---- mismatch ----------------------------------------------------------------------------
                     if not rS["fd_reliable%d" % order] and rS["fd_finite%d" % order]:
                         # the single-call reference itself is not trustworthy here: no verdict on this entry
                         rec.branch("excluded:%s:fd-unreliable (Richardson vs plain > 0.1 tol)" % oname)
+                        if c.near_probe:
+                            rec.branch("near-probe:excluded:%s:fd-unreliable (Richardson vs plain > 0.1 tol)" % oname)
                         continue
                     nan = r["nan_ad%d" % order] or not onp.isfinite(err)
                     sig = "nan" if nan else "mismatch"
@@ -419,7 +440,7 @@ def _run_cases(rec, mdl, prog, name, cases, s_pad, dt, p, M, eigen_based, seed):
                         # eigenvalues) makes even the FIRST derivative wrong when the computed eigenvalues differ by rounding
                         key, outcome = POW_KEY, "pow-derivative-at-nearly-repeated-principal-values"
                         rec.branch("protocol:pow_symm derivative wrong as single call at (nearly) repeated principal values")
-                    elif order == 2 and not okS and first_ok_single and near_centre and not nan:
+                    elif order == 2 and not okS and first_ok_single and repeated_centre and not nan:
                         key, outcome = TANGENT_KEY, "tangent-at-repeated-principal-values"
                         rec.branch("protocol:second derivative wrong as single call at repeated principal values")
                     elif mode == "batched" and okS:
@@ -434,14 +455,18 @@ def _run_cases(rec, mdl, prog, name, cases, s_pad, dt, p, M, eigen_based, seed):
                     rec.case(cid, nontrivial=c.nontrivial, outcome=outcome + ":" + oname, steps=1)
         for mode, r in res.items():
             rec.track_max("jvp(value) vs grad|%s|error/tol1" % mode, r["fwd_vs_rev"] if onp.isfinite(r["fwd_vs_rev"]) else 0.0)
-            if not near:
-                rec.track_max("tangent asymmetry|%s|distinct|/tol2" % mode, r["asym"] if onp.isfinite(r["asym"]) else 0.0)
+            if not near or c.near_probe:
+                rec.track_max("tangent asymmetry|%s|%s|/tol2" % (mode, cal), r["asym"] if onp.isfinite(r["asym"]) else 0.0)
             for o in (1, 2):
                 if r["fd_finite%d" % o] and not (c.excl1 if o == 1 else c.excl2):
-                    rec.track_max("fd self-check|order %d|Richardson-vs-plain/tolerance (used values only <= 0.1)" % o,
+                    rec.track_max("fd self-check|order %d%s|Richardson-vs-plain/tolerance (used values only <= 0.1)"
+                                  % (o, "|nearly-repeated probe" if c.near_probe else ""),
                                   r["rich%d" % o] if r["fd_reliable%d" % o] else 0.0)
         rec.branch("state:%s" % c.klass)
-        rec.branch("centre principal values:%s" % ("n/a" if not eigen_based else ("(nearly) repeated" if near_centre else "distinct")))
+        rec.branch("centre principal values:%s" % ("n/a" if not eigen_based else (
+            "repeated (gap <= 1e-12)" if repeated_centre else ("nearly repeated (1e-12 < gap <= 1e-4)" if nearly_centre else "distinct"))))
+        if c.near_probe:
+            rec.branch("near-probe:%s:%s" % (c.klass, "state turned in the pair plane" if c.turned else "state coaxial in the pair plane"))
 
 
 _ST = []
@@ -493,6 +518,72 @@ def _elastic_deformations(seed):
             ("shear:0.2", sh), ("generic-ps", _generic(seed, 1, 0.1, True)), ("generic-3d", _generic(seed, 2, 0.1, False))]
 
 
+# -- probes with NEARLY (not exactly) repeated principal values of the tensor handed to the eigen-solver ----------------
+
+TURNED = 1e-6      # |pair-plane off-diagonal of the internal-state tensor in the probe's principal frame| / |tensor|
+
+
+def _near_labels(kinds):
+    from mc.ref import material_ref as R
+    return ["near:%s:%s%s" % (gl, ol, (":" + k) if k else "") for gl, _ in R.NEAR_GAPS for ol, _ in R.NEAR_ORIENTATIONS
+            for k in kinds]
+
+
+def _near_parse(label):
+    from mc.ref import material_ref as R
+    f = label.split(":")
+    return dict(R.NEAR_GAPS)[f[1]], dict(R.NEAR_ORIENTATIONS)[f[2]], (f[3] if len(f) > 3 else None)
+
+
+def _near_flag(rec, label, gap):
+    """The near-probe protocol (single-call stencil, tolerance TAU2N) applies when the MEASURED centre gap of a probe built
+    with a prescribed gap is in (1e-8, 1e-4]; otherwise the probe is judged like any other deformation (counted)."""
+    if not label.startswith("near:"):
+        return False
+    if 1e-8 < gap <= NEAR_PROBE_GAP:
+        return True
+    rec.branch("near-probe:measured gap outside (1e-8, 1e-4] -> judged as an ordinary deformation")
+    return False
+
+
+def _elastic_near_deformations():
+    """Stateless models: the pair (1.3, 1.3) with odd stretch 0.9 in a frame turned about two axes, and the pair (1.02, 1.02)
+    with odd stretch 1.05 along the coordinate axes; symmetric F."""
+    from mc.ref import material_ref as R
+    Q = R.rot_z(0.3) @ R.rot_x(1.0)
+    out = []
+    for gl, g in R.NEAR_GAPS:
+        out.append(("near:%s:1.3,1.3,0.9|z0.3 x1" % gl, R.near_repeated_stretch(Q, 1.3 ** 2, 0.9 ** 2, g) - R.I3))
+        out.append(("near:%s:1.02,1.02,1.05|axes" % gl, R.near_repeated_stretch(R.I3, 1.02 ** 2, 1.05 ** 2, g) - R.I3))
+    return out
+
+
+def _j2_near_probe(ref, s, gap, angle, kind):
+    """J2 at internal state s: deformation whose decomposed tensor (C for 'seth hill', Ce = Fp^-T C Fp^-1 for 'large') has the
+    eigenvalues (c0, c0 + gap max(c), c2) in the principal frame of the plastic strain (of Fp Fp^T) ordered (pair, pair, odd)
+    and turned by `angle` about the odd axis.  kind 'centre': as close to the centre of the elastic domain of s as a repeated
+    pair allows (trial strain = plastic strain with its pair averaged, + 0.1 flow stress of axisymmetric deviator along the
+    odd axis); kind 'beyond': the same + an axisymmetric deviator of 2.5 flow stresses (actively yielding)."""
+    from mc.ref import material_ref as R
+    P = s[1:10].reshape(3, 3)
+    a = (0.1 if kind == "centre" else 2.5) * float(ref.Y(s[0])) / (6.0 * ref.mu)
+    if ref.kin == "seth hill":
+        w, Q = R.pair_frame(P, angle)
+        pm = 0.5 * (w[0] + w[1])
+        return R.near_repeated_stretch(Q, R.seth_hill_c(pm + a), R.seth_hill_c(w[2] - 2.0 * a), gap) - R.I3
+    w, Q = R.pair_frame(P @ P.T, angle)
+    Fe = R.near_repeated_stretch(Q, onp.exp(2.0 * a), onp.exp(-4.0 * a), gap)
+    return Fe @ P - R.I3
+
+
+def _visco_near_probe(Fv0, gap, angle):
+    """Viscoelastic model at viscous distortion Fv0 of the first branch: F = Fe Fv0 with the symmetric elastic stretch Fe of
+    principal values (1.2, 1.2 (+gap), 0.85) in the principal frame of Fv0 Fv0^T turned by `angle` about the odd axis."""
+    from mc.ref import material_ref as R
+    _, Q = R.pair_frame(Fv0 @ Fv0.T, angle)
+    return R.near_repeated_stretch(Q, 1.2 ** 2, 0.85 ** 2, gap) @ Fv0 - R.I3
+
+
 # ----------------------------------------------------------------------------------------------------
 # group drivers
 # ----------------------------------------------------------------------------------------------------
@@ -530,7 +621,7 @@ def _run_elastic(g, tier, seed, rec):
     if prog is None:
         return
     st = _stencil()
-    defs = _elastic_deformations(seed)
+    defs = _elastic_deformations(seed) + (_elastic_near_deformations() if mdl.eigen_based else [])
     h = 1e-3
     for i, (ml, _, _) in enumerate(R.MODULI):
         p, dt, M = mdl.constants(i)
@@ -564,7 +655,8 @@ def _run_elastic(g, tier, seed, rec):
             klass = "virgin:elastic"
             cases.append(_Case(prefix="model=%s;set=%s;state=virgin;H=%s" % (name, ml, dl), H=H, s=mdl.s0, state_label="virgin",
                                H_label=dl, excl1=excl1, excl2=excl2, gap_centre=gc, gap_stencil=gs, klass=klass,
-                               nontrivial=bool(mdl.eigen_based and gc <= 1e-6), h=h))
+                               nontrivial=bool(mdl.eigen_based and gc <= NEAR_PROBE_GAP), h=h,
+                               near_probe=_near_flag(rec, dl, gc), turned=False))
         _run_cases(rec, mdl, prog, name, cases, mdl.s0, dt, p, M, mdl.eigen_based, seed)
 
 
@@ -677,10 +769,15 @@ def _run_j2(g, tier, seed, rec):
                    "generic-ps-small", "generic-ps", "generic-3d"]
         if tier == "thorough":
             hlabels += ["ut:1e-6", "shear-", "rot"]
+        if eigen_based:
+            hlabels += _near_labels(("centre", "beyond"))
         cases = []
         for sl, s in states:
             for dl in hlabels:
-                H = _j2_centre(ref, s) if dl == "centre" else T[dl]
+                if dl.startswith("near:"):
+                    H = _j2_near_probe(ref, s, *_near_parse(dl))
+                else:
+                    H = _j2_centre(ref, s) if dl == "centre" else T[dl]
                 pts = st.points(H, h)
                 Sx = onp.tile(s, (st.n, 1))
                 with onp.errstate(all="ignore"):
@@ -695,17 +792,21 @@ def _run_j2(g, tier, seed, rec):
                         excl[o] = "stencil straddles the yield switch"
                 yielding = bool(f[0] > 0.0)
                 gaps_c, gaps_s = [1.0], [1.0]
+                turned = False
                 if eigen_based:
                     for Tn in ref.decomposed_tensors(pts, Sx)[:1]:        # the tensor the strain is built from
                         gg = rel_gap_sym(Tn)
                         gaps_c.append(float(gg[0]))
                         gaps_s.append(float(gg.min()))
+                        Pm = s[1:10].reshape(3, 3)
+                        turned = R.pair_plane_offdiagonal(Tn[0], Pm if kin == "seth hill" else Pm @ Pm.T - R.I3) > TURNED
                 virgin_state = sl == "virgin"
                 klass = "%s:%s" % ("virgin" if virgin_state else "hardened", "yielding" if yielding else "elastic")
                 cases.append(_Case(prefix="model=%s;set=%s;state=%s;H=%s" % (name, sname, sl, dl), H=H, s=s, state_label=sl,
                                    H_label=dl, excl1=excl.get(1), excl2=excl.get(2), gap_centre=min(gaps_c),
                                    gap_stencil=min(gaps_s), klass=klass,
-                                   nontrivial=bool((not virgin_state) or yielding or min(gaps_c) <= 1e-6), h=h))
+                                   nontrivial=bool((not virgin_state) or yielding or min(gaps_c) <= NEAR_PROBE_GAP), h=h,
+                                   near_probe=_near_flag(rec, dl, min(gaps_c)), turned=bool(turned)))
         _run_cases(rec, mdl, prog, name, cases, virgin, dt, p, M, eigen_based, seed)
 
 
@@ -780,12 +881,13 @@ def _run_visco(g, tier, seed, rec):
             frontier = nxt
         rec.notes["states:%s:%s" % (name, sname)] = len(states)
         dt = tau_ref
-        hlabels = ["zero", "uniax+", "uniax-rot", "shear+", "shear-", "equibiax", "generic", "generic-3d"]
+        hlabels = ["zero", "uniax+", "uniax-rot", "shear+", "shear-", "equibiax", "generic", "generic-3d"] + _near_labels((None,))
+        from mc.ref import material_ref as R
         cases = []
         for sl, s in states:
             Fv = s.reshape(nb, 3, 3)
             for dl in hlabels:
-                H = T[dl]
+                H = _visco_near_probe(Fv[0], *_near_parse(dl)[:2]) if dl.startswith("near:") else T[dl]
                 pts = st.points(H, h)
                 with onp.errstate(all="ignore"):
                     Ce = V.right_cauchy_green_elastic(pts[:, None, :, :], Fv[None])          # (n, nb, 3, 3)
@@ -795,9 +897,12 @@ def _run_visco(g, tier, seed, rec):
                 flowing = bool(dev2.max() > 1e-20)
                 virgin_state = sl == "virgin"
                 klass = "%s:%s" % ("virgin" if virgin_state else "evolved", "relaxing" if flowing else "no-flow")
+                turned = bool(onp.all(onp.isfinite(Ce[0, 0]))) and \
+                    R.pair_plane_offdiagonal(Ce[0, 0], Fv[0] @ Fv[0].T - R.I3) > TURNED
                 cases.append(_Case(prefix="model=%s;set=%s;state=%s;H=%s" % (name, sname, sl, dl), H=H, s=s, state_label=sl,
                                    H_label=dl, excl1=excl, excl2=excl, gap_centre=float(gg[0]), gap_stencil=float(gg.min()),
-                                   klass=klass, nontrivial=bool((not virgin_state) or flowing), h=h))
+                                   klass=klass, nontrivial=bool((not virgin_state) or flowing), h=h,
+                                   near_probe=_near_flag(rec, dl, float(gg[0])), turned=turned))
         _run_cases(rec, mdl, prog, name, cases, s0, dt, p, M, True, seed)
 
 
